@@ -90,6 +90,7 @@ class Ether:
         self.n = 0
         self.budget = cfg.get("deliveries", 6)
         self.log = []
+        self.delays = {}
 
     def _msg(self, frame):
         from datetime import datetime as dt
@@ -101,9 +102,27 @@ class Ether:
         if self.budget <= 0 or not self.cfg.get("sym_times", True):
             return Fraction(1, 20) if not self.env.symbolic else 0.05
         self.budget -= 1
+        wide = self.cfg.get("wide") or {}
+        if tag in wide:
+            # 'edge timing': this hop may take long, as long as the frame it carries still arrives inside the
+            # wait it is awaited in, counted the way the statement counts it (from the end of the awaiting
+            # side's own send): lo <= d_f(prev) + d - d_echo(prev) < wait
+            d = self.env.real(f"d_{tag}", 0, Fraction(wide[tag]["hi"]).limit_denominator(1000))
+            self.delays[tag] = d
+            ge = wide[tag].get("ge")
+            if ge and self.env.symbolic and ge in self.delays:
+                self.env.ctx.assume((d >= self.delays[ge]).e)  # (the sender's own send has returned by then)
+            c = wide[tag].get("within")
+            if c and self.env.symbolic and all(k in self.delays for k in c["after"]):
+                f_prev, e_prev = (self.delays[k] for k in c["after"])
+                self.env.ctx.assume((f_prev + d - e_prev < Fraction(c["wait"]).limit_denominator(1000)).e)
+                self.env.ctx.assume((f_prev + d - e_prev >= 0).e)
+            return d
         if self.cfg.get("prompt"):  # "arrivals inside the waits": 6 hops x 0.4 s < the 3 s confirm wait
             hi = min(hi, Fraction(2, 5))
-        return self.env.real(f"d_{tag}", 0, hi)
+        d = self.env.real(f"d_{tag}", 0, hi)
+        self.delays[tag] = d
+        return d
 
     def _lost(self, tag):
         if not self.cfg.get("loss"):
@@ -313,6 +332,9 @@ def configs(tier):
     for flow in FLOWS:
         out.append((f"lossless[{flow}]", dict(flow=flow, deliveries=6, prompt=True)))
         out.append((f"lossless[{flow},repeat=1]", dict(flow=flow, deliveries=4, repeats=1, prompt=True)))
+    # edge timing: the Accept takes up to 1 s to get out, the Confirm arrives up to 2.95 s after that send ended
+    for flow in (FLOWS if thorough else ("THM", "REM")):
+        out.append((f"edge-confirm[{flow}]", dict(flow=flow, deliveries=6, prompt=True, wide={"f0": {"hi": 0.4, "ge": "echo0"}, "echo1": {"hi": 1}, "f2": {"hi": 3.5, "within": {"after": ["f1", "echo1"], "wait": 2.95}}})))
     out.append(("no-supplicant[THM]", dict(flow="THM", present="R", deliveries=2)))
     out.append(("no-respondent[THM]", dict(flow="THM", present="S", deliveries=2)))
     out.append(("no-supplicant[CO2]", dict(flow="CO2", present="R", deliveries=2)))
